@@ -16,6 +16,8 @@ pub struct Mix {
     pub w5b: (u64, u64),
     /// W5c long cyclers: (games quick, games thorough), not multiplied
     pub w5c: (u64, u64),
+    /// W7c setup + cycler from the first play position
+    pub w7c: (u64, u64),
     pub w7: (u64, u64),
     pub max_turns: u32,
     pub long_w3: (u64, u64), // extra W3 games with 2000-turn cap
@@ -29,14 +31,14 @@ pub struct Mix {
 }
 impl Default for Mix {
     fn default() -> Self {
-        Mix { w1: (0, 0), w2: (0, 0), w3: (0, 0), w5: (0, 0), w5b: (0, 0), w5c: (0, 0), w7: (0, 0), max_turns: 200, long_w3: (0, 0), text_per_mille: 20, tree_per_mille: 0, sweep2: false, sweep3: (0, 0), sweep_depth: 2, sweep4_thorough: false }
+        Mix { w1: (0, 0), w2: (0, 0), w3: (0, 0), w5: (0, 0), w5b: (0, 0), w5c: (0, 0), w7c: (0, 0), w7: (0, 0), max_turns: 200, long_w3: (0, 0), text_per_mille: 20, tree_per_mille: 0, sweep2: false, sweep3: (0, 0), sweep_depth: 2, sweep4_thorough: false }
     }
 }
 
 pub fn run_mix(cfg: &Cfg, mix: &Mix, make: &(dyn Fn() -> Box<dyn Monitor> + Sync)) -> Sink {
     // game counts in the plans below are per worker; quick plans are multiplied by 6, thorough by 20
     let k = if cfg.tier == Tier::Quick { 6 } else { 20 };
-    let mix = &Mix { w1: (mix.w1.0 * k, mix.w1.1 * k), w2: (mix.w2.0 * k, mix.w2.1 * k), w3: (mix.w3.0 * k, mix.w3.1 * k), w5: (mix.w5.0 * k, mix.w5.1 * k), w5b: (mix.w5b.0 * k, mix.w5b.1 * k), w7: (mix.w7.0 * k, mix.w7.1 * k), long_w3: (mix.long_w3.0, mix.long_w3.1), sweep3: (if mix.sweep3.0 > 0 { (mix.sweep3.0 / 4).max(1) } else { 0 }, mix.sweep3.1), ..*mix };
+    let mix = &Mix { w1: (mix.w1.0 * k, mix.w1.1 * k), w2: (mix.w2.0 * k, mix.w2.1 * k), w3: (mix.w3.0 * k, mix.w3.1 * k), w5: (mix.w5.0 * k, mix.w5.1 * k), w5b: (mix.w5b.0 * k, mix.w5b.1 * k), w7c: (mix.w7c.0 * k, mix.w7c.1 * k), w7: (mix.w7.0 * k, mix.w7.1 * k), long_w3: (mix.long_w3.0, mix.long_w3.1), sweep3: (if mix.sweep3.0 > 0 { (mix.sweep3.0 / 4).max(1) } else { 0 }, mix.sweep3.1), ..*mix };
     run_parallel(cfg, |w, sink| {
         let mut mon = make();
         let opts = PlayOpts { max_turns: mix.max_turns, max_actions: mix.max_turns * 4 + 8, tree_per_mille: mix.tree_per_mille, ..PlayOpts::default() };
@@ -52,6 +54,9 @@ pub fn run_mix(cfg: &Cfg, mix: &Mix, make: &(dyn Fn() -> Box<dyn Monitor> + Sync
         }
         if mix.w5b.1 > 0 {
             play_saturated(cfg.n(mix.w5b.0, mix.w5b.1), cfg.seed, w, &opts3, m, sink);
+        }
+        if mix.w7c.1 > 0 {
+            play_setup_cyclers(cfg.n(mix.w7c.0, mix.w7c.1), cfg.seed, w, m, sink);
         }
         if mix.w5c.1 > 0 {
             let (kmin, kmax) = if cfg.tier == Tier::Quick { (70, 170) } else { (100, 600) };
@@ -150,7 +155,7 @@ pub fn c03(cfg: &Cfg) -> i32 {
 }
 
 pub fn c05(cfg: &Cfg) -> i32 {
-    let mix = Mix { w1: (200, 5000), w3: (1200, 30000), w5: (1200, 30000), w5b: (150, 4000), w5c: (8, 200), w7: (10, 200), long_w3: (0, 60), max_turns: 200, ..Mix::default() };
+    let mix = Mix { w1: (200, 5000), w3: (1200, 30000), w5: (1200, 30000), w5b: (150, 4000), w5c: (8, 200), w7c: (40, 800), w7: (10, 200), long_w3: (0, 60), max_turns: 200, ..Mix::default() };
     let sink = run_mix(cfg, &mix, &|| Box::new(C05::default()));
     let floors = vec![
         floor("turn_ends_judged", 200_000, 2_000_000),
@@ -161,6 +166,7 @@ pub fn c05(cfg: &Cfg) -> i32 {
         floor("attempt_step4_third", 100, 1000),
         floor("turn_ends_after_capture_in_turn", 100, 1000),
         floor("long_cycler_scripts_built", 40, 1000),
+        floor("setup_cycler_scripts_built", 500, 10_000),
         floor("third_repetition_attempts_after_turn_256", 20, 500),
         floor("longest_game_turns", 400, 1500),
     ];
@@ -168,7 +174,7 @@ pub fn c05(cfg: &Cfg) -> i32 {
 }
 
 pub fn c06(cfg: &Cfg) -> i32 {
-    let mix = Mix { w1: (300, 8000), w2: (200, 5000), w3: (1200, 30000), w5: (1200, 30000), w5b: (150, 4000), w5c: (8, 200), w7: (10, 200), long_w3: (0, 60), ..Mix::default() };
+    let mix = Mix { w1: (300, 8000), w2: (200, 5000), w3: (1200, 30000), w5: (1200, 30000), w5b: (150, 4000), w5c: (8, 200), w7c: (40, 800), w7: (10, 200), long_w3: (0, 60), ..Mix::default() };
     let sink = run_mix(cfg, &mix, &|| Box::new(C06::default()));
     let floors = vec![
         floor("states_judged", 300_000, 3_000_000),
@@ -184,14 +190,14 @@ pub fn c06(cfg: &Cfg) -> i32 {
 }
 
 pub fn c07(cfg: &Cfg) -> i32 {
-    let mix = Mix { w1: (300, 8000), w2: (200, 5000), w3: (2000, 50000), w5: (800, 20000), w5b: (300, 8000), w5c: (4, 100), w7: (40, 800), ..Mix::default() };
+    let mix = Mix { w1: (300, 8000), w2: (200, 5000), w3: (2000, 50000), w5: (800, 20000), w5b: (300, 8000), w5c: (4, 100), w7c: (20, 400), w7: (40, 800), ..Mix::default() };
     let sink = run_mix(cfg, &mix, &|| Box::new(C07::default()));
-    let floors = vec![floor("states_judged", 300_000, 3_000_000), floor("dead_end_pending_push_all_completions_withheld", 20, 400), floor("states_can_pass_true_ne_false", 10_000, 100_000), floor("setup_states_judged", 10_000, 100_000), floor("dead_end_every_turn_ender_withheld", 150, 4000), floor("saturated_scripts_only_pull_left", 2000, 50_000), floor("saturated_scripts_dead_end", 1000, 25_000)];
+    let floors = vec![floor("states_judged", 300_000, 3_000_000), floor("dead_end_pending_push_all_completions_withheld", 20, 400), floor("states_can_pass_true_ne_false", 10_000, 100_000), floor("setup_states_judged", 10_000, 100_000), floor("dead_end_every_turn_ender_withheld", 150, 4000), floor("saturated_scripts_only_pull_left", 2000, 50_000), floor("saturated_scripts_dead_end", 500, 12_000), floor("saturated_scripts_dead_end_beside_pushable_enemy", 500, 12_000)];
     conclude(cfg, sink, base_report("states_judged", "W3/W5 repetition-heavy games and W5b saturated-neighbourhood scripts (a lone mobile piece visits a square and all its neighbours twice, then returns: at step 3 the pass and every own step are withheld, leaving either nothing or only a pull), W1/W2/W7 games; at every setup and play state is_terminal, valid_actions, valid_actions_no_rep, can_pass(true/false) and has_move are cross-checked. distinct_nontrivial = distinct mid-turn dead ends plus distinct states where can_pass(true) != can_pass(false).", floors))
 }
 
 pub fn c08(cfg: &Cfg) -> i32 {
-    let mix = Mix { w1: (600, 20000), w2: (600, 20000), w3: (400, 10000), w5: (200, 5000), w7: (60, 1500), sweep2: true, ..Mix::default() };
+    let mix = Mix { w1: (600, 20000), w2: (600, 20000), w3: (400, 10000), w5: (200, 5000), w5b: (50, 1000), w5c: (2, 40), w7c: (30, 600), w7: (60, 1500), sweep2: true, ..Mix::default() };
     let sink = run_mix(cfg, &mix, &|| Box::new(C08::new()));
     let mut floors = vec![floor("states_judged", 300_000, 3_000_000), floor("turn_changes_by_pass", 5000, 50_000), floor("turn_changes_by_fourth_step", 5000, 50_000), floor("transposition_pairs_different_paths", 10_000, 100_000), floor("setup_completions_compared_with_parse", 500, 10_000), floor("history_entries_checked", 100_000, 1_000_000)];
     for tr in ["c6", "f6", "c3", "f3"] {
